@@ -418,6 +418,24 @@ func checkC17(c *Ctx) {
 		if uf.root.Suffix != "_client.pb.go" {
 			continue
 		}
+		// map/slice-typed fields of the structs declared in the unit
+		refFields := map[string]bool{}
+		for _, d := range uf.f.Decls {
+			if gd, ok := d.(*ast.GenDecl); ok && gd.Tok == token.TYPE {
+				for _, sp := range gd.Specs {
+					if st, ok := sp.(*ast.TypeSpec).Type.(*ast.StructType); ok {
+						for _, fl := range st.Fields.List {
+							switch fl.Type.(type) {
+							case *ast.MapType, *ast.ArrayType:
+								for _, nm := range fl.Names {
+									refFields[nm.Name] = true
+								}
+							}
+						}
+					}
+				}
+			}
+		}
 		for _, d := range uf.f.Decls {
 			fd, ok := d.(*ast.FuncDecl)
 			if !ok || fd.Recv == nil || fd.Body == nil || len(fd.Recv.List[0].Names) == 0 {
@@ -453,6 +471,31 @@ func checkC17(c *Ctx) {
 				}
 				bad = append(bad, tgt)
 			}
+			// a map/slice field of the client handed to per-call state (a composite literal field, a store into
+			// another struct) becomes writable through that state: option closures then write into the client's map
+			ast.Inspect(fd.Body, func(n ast.Node) bool {
+				esc := func(e ast.Expr, how string) {
+					if sel, ok := ast.Unparen(e).(*ast.SelectorExpr); ok {
+						if id, ok := ast.Unparen(sel.X).(*ast.Ident); ok && id.Name == recv && refFields[sel.Sel.Name] {
+							bad = append(bad, fmt.Sprintf("%s.%s (a map/slice of the client) is %s: writes through that value reach the client's shared state", recv, sel.Sel.Name, how))
+						}
+					}
+				}
+				switch x := n.(type) {
+				case *ast.KeyValueExpr:
+					esc(x.Value, "stored into a struct literal ("+holeFree(types.ExprString(x.Key))+")")
+				case *ast.AssignStmt:
+					if len(x.Lhs) == len(x.Rhs) {
+						for i, rh := range x.Rhs {
+							switch ast.Unparen(x.Lhs[i]).(type) {
+							case *ast.SelectorExpr, *ast.IndexExpr:
+								esc(rh, "stored into "+holeFree(types.ExprString(x.Lhs[i])))
+							}
+						}
+					}
+				}
+				return true
+			})
 			nClient++
 			key := fmt.Sprintf("go-client method %s does not write client state", holeFree(fd.Name.Name))
 			r.CheckD(len(bad) == 0, "R17b", key, genPos(uf, fd.Pos()),
